@@ -138,14 +138,15 @@ def _band_report(root, variant):
         info = extract.get_function(PATH, 'EngineLineCropper.get_crop_inputs', root)
         rep.info = info
         stmts = band_statements(info.node.body)
-        for w in _WANTED:
+        for w in ('vertical_map', 'horizontal_sample_count'):
             if not any(w in _written(s) for s in stmts):
                 raise Unsupported('no top-level assignment to `%s` found' % w)
+        has_scale = any('scale' in _written(s) for s in stmts)          # the local factor is an intermediate: it may be renamed / inlined
         if variant == 'array':
             lh = 'nd1:real'
         else:
             lh = lambda ex, st, n: [z3.Real('h_asc'), z3.Real('h_desc')]
-        con = Contract(params={'self': 'obj:EngineLineCropper', 'baseline': 'nd2:real', 'line_heights': lh, 'target_height': 'int'}, fields={'scale': 'real'})
+        con = Contract(params={'self': 'obj:EngineLineCropper', 'baseline': 'nd2:real', 'line_heights': lh, 'target_height': 'int'}, fields={'scale': 'real', 'line_height': 'int'})
         ex = Exec(info, con, {}, name=rep.name)
         st = State()
         ex.bind_params(st, info.node)
@@ -173,7 +174,8 @@ def _band_report(root, variant):
             ex.emit(s2, 'band#2', ex.eval_spec('vertical_map[target_height - 1, 0] == %s' % hi, s2), last, 'last row: the (scaled) descender height below the baseline')
             ex.emit(s2, 'band#3', ex.eval_spec('forall(lambda r: implies(0 < r and r < target_height - 1, vertical_map[r, 0] == %s + r * ((%s - %s) / (target_height - 1))))' % (lo, hi, lo), s2),
                     last, 'rows run linearly in between')
-            ex.emit(s2, 'band#4', ex.eval_spec('scale == target_height / (H[0] * self.scale + H[1] * self.scale)', s2), last, 'target height over scaled line height')
+            if has_scale:
+                ex.emit(s2, 'band#4', ex.eval_spec('scale == target_height / (H[0] * self.scale + H[1] * self.scale)', s2), last, 'target height over scaled line height')
             ex.emit(s2, 'band#5', ex.eval_spec('horizontal_sample_count == int(mapping_x_to_line_pos[table_len - 1] * (target_height / (H[0] * self.scale + H[1] * self.scale)))', s2),
                     last, 'width = baseline length x target height / scaled line height (truncated)')
             if variant == 'array':
